@@ -150,6 +150,26 @@ pub fn run_group(a: &Args, out: &mut Out) {
             group_round::<G1>(&mut rng, &pool, out, k1, &a.focus);
         }
     }
+    // remaining public surface: curve coefficients, coordinate setters (equivalent to the constructor), affine setters
+    {
+        let (p1, _) = elem::<G1>(&mut rng, &pool, "J");
+        let (p2, _) = elem::<G2>(&mut rng, &pool, "J");
+        out.call("g.api", json!({"a1": p1.jac(), "a2": p2.jac()}), || {
+            let mut s1 = <G1 as Grp>::zero();
+            s1.set_x(p1.x()); s1.set_y(p1.y()); s1.set_z(p1.z());
+            let mut s2 = <G2 as Grp>::zero();
+            s2.set_x(p2.x()); s2.set_y(p2.y()); s2.set_z(p2.z());
+            let mut a1 = AffineG1::from_jacobian(G1::one()).unwrap();
+            let t1 = AffineG1::from_jacobian(p1).unwrap();
+            a1.set_x(t1.x()); a1.set_y(t1.y());
+            let mut a2 = AffineG2::from_jacobian(G2::one()).unwrap();
+            let t2 = AffineG2::from_jacobian(p2).unwrap();
+            a2.set_x(t2.x()); a2.set_y(t2.y());
+            outs! {"b1" => b(&G1::b().to_slice()), "b2" => b(&G2::b().to_slice()), "s1" => s1.jac(), "s2" => s2.jac(),
+                   "s1eq" => Value::Bool(s1 == p1), "s2eq" => Value::Bool(s2 == p2),
+                   "af1" => G1::from(a1).jac(), "af2" => G2::from(a2).jac()}
+        });
+    }
     // identity-only corner cases
     for (za, zb) in [("Z0", "Z0"), ("Z0", "ZN"), ("ZN", "Z0"), ("ZN", "ZN"), ("S", "ZN")] {
         let (x, y) = (G1::rep(&mut rng, <G1 as Grp>::zero(), za), G1::rep(&mut rng, <G1 as Grp>::zero(), zb));
